@@ -857,7 +857,11 @@ class Exec:
             c, kk = s.slot(frame, rv[1])
             if kk is None: raise Unsupported('ref of bare downcast')
             return Ref(c, kk)
-        if k == 'disc': return s.disc(s.read(frame, rv[1]))
+        if k == 'disc':
+            dv = s.read(frame, rv[1])
+            if isinstance(dv, Ref): dv = dv.get()
+            if isinstance(dv, Agg) and dv.ty == 'Ordering': return dv.idx - 1      # std::cmp::Ordering has the explicit discriminants -1 / 0 / 1 (the workspace enums have none)
+            return s.disc(dv)
         if k == 'bin': return s.binop(rv[1], s.operand(frame, rv[2], body), s.operand(frame, rv[3], body), rv, body, dest_ty)
         if k == 'un':
             v = s.operand(frame, rv[2], body)
@@ -946,6 +950,7 @@ class Exec:
     def int_cast(s, v, src, dst):
         dst = dst.strip()
         if dst not in INT_RANGES: raise Unsupported('int cast to ' + dst)
+        if isinstance(v, Agg) and v.ty == 'Ordering': v = v.idx - 1          # Less = -1, Equal = 0, Greater = 1 (explicit discriminants; the workspace enums have none)
         if isinstance(v, (Agg, LazyEnum)): v = s.disc(v)
         if isinstance(v, bool): v = int(v)
         if is_sym(v) and z3.is_bool(v): v = z3.If(v, 1, 0)
